@@ -15,7 +15,8 @@ TRUSTED = ["the go/ast write-site extractor: syntactic freshness (a target roote
            "aliasing through values returned by helpers is covered only by the deep comparison"]
 RULE = ("every generator of C01-C08, the probes of C12 (sub-queries, EXISTS, CTEs, `<-`), joins, ORDER BY, aggregates, and the fault "
         "joins with no alias on either side (the rows are then the caller's own maps), documents using the keys `<-` `*` `root` "
-        "themselves, and the fault streams of C19 at EVERY failure point k, with and without Wrapped: a cycle-safe structural snapshot of the input taken by the "
+        "themselves, WITH-bearing statements as siblings (union branches under one WITH; derived tables, join sides, union branches and "
+        "IN sub-queries each with their own WITH), and the fault streams of C19 at EVERY failure point k, with and without Wrapped: a cycle-safe structural snapshot of the input taken by the "
         "runner before New+Exec is compared with the input afterwards; non-trivial = the query evaluates a marker site, a CTE, EXISTS "
         "or ORDER BY")
 
@@ -83,6 +84,29 @@ def explore(chk, rnd, tier):
             "SELECT * FROM t x JOIN t y ON x.a = y.a",
         ])
         reqs.append({"op": "query", "doc": enc_val({"t": rows, "<-": "top", "*": [1]}), "sql": sql, "wrapped": rnd.random() < 0.3 and "FROM t" not in sql})
+        tags.append(sql)
+    # WITH-bearing statements as SIBLINGS (union branches under one WITH, two derived tables / join sides / union branches
+    # each with its own WITH, WITH inside a sub-query next to a top-level WITH): each registers its CTEs in the map it was
+    # handed — which must never be the caller's document
+    for _ in range(n // 8):
+        trows = [{"id": rnd.choice([1, 2, 3, 4]), "a": rnd.choice([1, 2, 3])} for _ in range(rnd.randint(0, 4))]
+        urows = [{"id": rnd.choice([1, 2, 5]), "m": rnd.choice([10, 20])} for _ in range(rnd.randint(0, 4))]
+        s1 = rnd.choice(["SELECT id FROM t", "SELECT id FROM t WHERE a > 1", "SELECT id, a FROM t ORDER BY id"])
+        s2 = rnd.choice(["SELECT id FROM u", "SELECT id FROM u WHERE m = 10"])
+        un = rnd.choice(["UNION", "UNION ALL"])
+        sql = rnd.choice([
+            "WITH c AS (%s) SELECT id FROM c %s SELECT id FROM u" % (s1, un),
+            "WITH c AS (%s) SELECT id FROM c %s SELECT id FROM c" % (s1, un),
+            "WITH c AS (%s), d AS (%s) SELECT id FROM c %s SELECT id FROM d" % (s1, s2, un),
+            "SELECT x.id AS id FROM (WITH a AS (%s) SELECT * FROM a) x JOIN (WITH b AS (%s) SELECT * FROM b) y ON x.id = y.id" % (s1, s2),
+            "SELECT x.id AS id FROM (WITH a AS (%s) SELECT * FROM a) x LEFT JOIN (WITH b AS (%s) SELECT * FROM b) y ON x.id < y.id" % (s1, s2),
+            "SELECT x.id AS id FROM (WITH a AS (%s) SELECT id FROM a) x %s SELECT y.id AS id FROM (WITH b AS (%s) SELECT id FROM b) y" % (s1, un, s2),
+            "WITH c AS (%s) SELECT id, (WITH e AS (%s) SELECT id FROM e) AS sub FROM c" % (s1, s2.replace("FROM u", "FROM `<-u`")),
+            "WITH c AS (WITH e AS (%s) SELECT id FROM e) SELECT id FROM c %s SELECT z.id AS id FROM (WITH f AS (%s) SELECT id FROM f) z" % (s1, un, s2),
+            "SELECT id FROM t WHERE id IN (WITH a AS (%s) SELECT id FROM a) %s SELECT id FROM u WHERE id IN (WITH b AS (%s) SELECT id FROM b)" % (
+                s2.replace("FROM u", "FROM `<-u`"), un, s1.replace("FROM t", "FROM `<-t`")),
+        ])
+        reqs.append({"op": "query", "doc": enc_val({"t": trows, "u": urows}), "sql": sql, "wrapped": False})
         tags.append(sql)
     # every failure point of fault-injected queries
     fcases = []
